@@ -1580,3 +1580,151 @@ Proof.
   unfold constants_max. destruct Hrun as [(m & Hm)|Hm]; rewrite Hm; cbn [bind]; [|right; reflexivity].
   left. exact (constants_remap_total f max m Hinv Hsr Hm).
 Qed.
+
+(* ================================================================== full completion: a rank over the function's scalars *)
+Definition vrank (o : option cst) : nat :=
+  match o with None => 0 | Some CBot => 1 | Some (CConst _) => 2 | Some CTop => 3 end.
+Definition crank (u : list scalar) (s : cmap) : nat := list_sum (List.map (fun k => vrank (cm_get s k)) u).
+
+Lemma crank_le u s : (crank u s <= 3 * length u)%nat.
+Proof.
+  unfold crank. induction u as [|k t IH]; simpl; [lia|].
+  assert (vrank (cm_get s k) <= 3)%nat by (destruct (cm_get s k) as [[|c|]|]; cbn; lia). lia.
+Qed.
+
+Lemma sum_lt (g h : scalar -> nat) u : (forall k, In k u -> (g k <= h k)%nat) -> (exists k, In k u /\ (g k < h k)%nat) ->
+  (list_sum (List.map g u) < list_sum (List.map h u))%nat.
+Proof.
+  induction u as [|x t IH]; intros Hle (k & Hk & Hlt); [destruct Hk|]. simpl.
+  assert (Ht : (list_sum (List.map g t) <= list_sum (List.map h t))%nat).
+  { clear IH Hlt Hk. induction t as [|y t IHt]; simpl; [lia|].
+    assert (g y <= h y)%nat by (apply Hle; right; left; reflexivity).
+    assert (list_sum (List.map g t) <= list_sum (List.map h t))%nat; [|lia].
+    apply IHt. intros z Hz. apply Hle. destruct Hz as [->|Hz]; [left; reflexivity|right; right; exact Hz]. }
+  destruct Hk as [->|Hk].
+  - lia.
+  - assert (g x <= h x)%nat by (apply Hle; left; reflexivity).
+    assert (list_sum (List.map g t) < list_sum (List.map h t))%nat; [|lia].
+    apply IH; [intros z Hz; apply Hle; right; exact Hz|exists k; auto].
+Qed.
+
+Lemma vrank_le v rc : cst_lt v rc = false -> (vrank (Some rc) <= vrank (Some v))%nat \/ False.
+Proof.
+  intros H. left. unfold cst_lt in H. destruct v as [|x|], rc as [|y|]; cbn [cst_cmp vrank] in *; try lia; try discriminate.
+Qed.
+Lemma vrank_cle v rc : cst_le v rc = true -> (vrank (Some v) <= vrank (Some rc))%nat.
+Proof.
+  unfold cst_le. destruct v as [|x|], rc as [|y|]; cbn [cst_cmp vrank]; try lia; try discriminate.
+Qed.
+Lemma vrank_gt v rc : cst_gt v rc = true -> (vrank (Some rc) < vrank (Some v))%nat.
+Proof.
+  unfold cst_gt. destruct v as [|x|], rc as [|y|]; cbn [cst_cmp vrank]; try lia; try discriminate.
+  destruct (const_eqb x y); discriminate.
+Qed.
+
+(* the fold of the equal-length branch, when it answers Greater *)
+Lemma gt_fold_inv s l : forall acc, fold_left (eq_step s) l acc = Some Gt ->
+  (acc = Some Eq \/ acc = Some Gt) /\
+  (forall kv, In kv l -> exists rc, cm_get s (fst kv) = Some rc /\ cst_lt (snd kv) rc = false) /\
+  (acc = Some Gt \/ exists kv rc, In kv l /\ cm_get s (fst kv) = Some rc /\ cst_gt (snd kv) rc = true).
+Proof.
+  induction l as [|kv t IH]; intros acc H; cbn [fold_left] in H.
+  - split; [right; exact H|split; [intros ? []|left; exact H]].
+  - destruct (IH _ H) as (Hacc & Hall & Hex). unfold eq_step in Hacc, Hex.
+    destruct acc as [order|]; [|destruct Hacc; discriminate].
+    destruct (cm_get s (fst kv)) as [rc|] eqn:Eg; [|destruct Hacc; discriminate].
+    destruct (cst_lt (snd kv) rc) eqn:E1.
+    { destruct order; destruct Hacc; discriminate. }
+    destruct (cst_gt (snd kv) rc) eqn:E2.
+    + split; [destruct order; destruct Hacc; try discriminate; auto|].
+      split; [intros kv' [<-|Hin]; [eauto|auto]|].
+      right. exists kv, rc. split; [left; reflexivity|auto].
+    + split; [exact Hacc|]. split; [intros kv' [<-|Hin]; [eauto|auto]|].
+      destruct Hex as [Hex|(kv' & rc' & Hin & A & B)]; [left; exact Hex|right; exists kv', rc'; split; [right; exact Hin|auto]].
+Qed.
+
+Lemma not_incl_witness (a b : list scalar) : (length b < length a)%nat -> NoDup a -> exists k, In k a /\ ~ In k b.
+Proof.
+  intros Hlen Hn. destruct (forallb (fun k => ss_mem k b) a) eqn:E.
+  - exfalso. assert (Hi : incl a b) by (intros k Hk; rewrite forallb_forall in E; apply ss_mem_in; exact (E k Hk)).
+    pose proof (NoDup_incl_length Hn Hi). lia.
+  - assert (existsb (fun k => negb (ss_mem k b)) a = true).
+    { clear Hlen Hn. induction a as [|x t IH]; cbn [forallb existsb] in *; [discriminate|].
+      destruct (ss_mem x b); cbn [negb andb orb] in *; [apply IH; exact E|reflexivity]. }
+    apply existsb_exists in H as (k & Hk & Hnb). exists k. split; [exact Hk|].
+    intros Hin. apply ss_mem_in in Hin. rewrite Hin in Hnb. discriminate.
+Qed.
+
+Lemma crank_gt u a b : NoDup (keys a) -> NoDup (keys b) -> (forall k, In k (keys a) -> In k u) ->
+  cm_cmp a b = Some Gt -> (crank u b < crank u a)%nat.
+Proof.
+  intros Na Nb Hu Hc. unfold crank. unfold cm_cmp in Hc.
+  destruct (Nat.compare (length a) (length b)) eqn:El.
+  - (* equal lengths *)
+    apply Nat.compare_eq in El. destruct (gt_fold_inv b a _ Hc) as (_ & Hall & [Hex|(kv & rc & Hin & Hg & Hgt)]); [discriminate|].
+    assert (Hab : incl (keys a) (keys b)).
+    { intros k Hk. unfold keys in Hk. apply in_map_iff in Hk as ([k' v] & <- & Hin'). destruct (Hall _ Hin') as (rc' & Hr & _). eapply get_in_keys. exact Hr. }
+    assert (Hba : incl (keys b) (keys a)).
+    { apply NoDup_length_incl; [exact Na| |exact Hab]. unfold keys. rewrite !map_length. lia. }
+    apply sum_lt.
+    + intros k _. destruct (cm_get a k) as [v|] eqn:Ea.
+      * destruct (Hall _ (cm_get_in _ _ _ Ea)) as (rc' & Hr & Hl). cbn [fst snd] in *. rewrite Hr.
+        destruct (vrank_le v rc' Hl) as [H|[]]. exact H.
+      * destruct (cm_get b k) as [x|] eqn:Eb; [|lia]. exfalso. apply cm_get_none in Ea. apply Ea. apply Hba. eapply get_in_keys. exact Eb.
+    + destruct kv as [k v]. cbn [fst snd] in *. exists k. split; [apply Hu; unfold keys; apply in_map_iff; exists (k, v); auto|].
+      rewrite Hg, (cm_in_get a k v Na Hin). apply vrank_gt. exact Hgt.
+  - destruct (sub_le a b); discriminate.
+  - (* a has more keys *)
+    apply Nat.compare_gt_iff in El. destruct (sub_le b a) eqn:Es; [|discriminate].
+    unfold sub_le in Es. rewrite forallb_forall in Es.
+    apply sum_lt.
+    + intros k _. destruct (cm_get b k) as [v|] eqn:Eb; [|cbn [vrank]; lia].
+      specialize (Es _ (cm_get_in _ _ _ Eb)). cbn [fst snd] in Es. destruct (cm_get a k) as [rc|]; [|discriminate]. apply vrank_cle. exact Es.
+    + destruct (not_incl_witness (keys a) (keys b)) as (k & Hka & Hkb); [unfold keys; rewrite !map_length; exact El|exact Na|].
+      exists k. split; [apply Hu; exact Hka|]. apply cm_get_none in Hkb. rewrite Hkb.
+      destruct (cm_get a k) as [[|c|]|] eqn:Ea; cbn [vrank]; try lia. exfalso. apply cm_get_none in Ea. contradiction.
+Qed.
+
+(* C13 completion at full strength: with a step budget covering the C09 bound for the height
+   3 * |scalars| (per scalar: absent < Bottom < Constant < Top) the analysis returns a result *)
+Theorem constants_completes f max :
+  cfg_inv (f_cfg f) = true -> c13_wf f = true -> def_assigned f = true ->
+  (1 + out_degree f * (length (locations f) * Datatypes.S (3 * length (all_scalars f))) <= Datatypes.S max)%nat ->
+  exists r, constants_max max f = Ok r.
+Proof.
+  intros Hinv Hwf Hda Hbud. pose proof (Hsrc f Hwf) as Hsr.
+  destruct (g_entry (f_cfg f)) as [e|] eqn:Ee.
+  2:{ unfold def_assigned, entry_loc in Hda. rewrite Ee in Hda. discriminate. }
+  destruct (find_block (f_blocks f) e) as [eb|] eqn:Eb.
+  2:{ unfold def_assigned, entry_loc in Hda. rewrite Ee, Eb in Hda. discriminate. }
+  destruct (da_solution f) as [dm|] eqn:Hsol.
+  2:{ unfold def_assigned, entry_loc in Hda. rewrite Ee, Eb, Hsol in Hda. discriminate. }
+  pose proof (proj1 (find_block_some _ _ _ Eb)) as Hin.
+  assert (Hlocs : forall l, reachL f (block_first_loc eb) l -> In l (locations f)).
+  { intros l Hr. apply (locations_valid f l Hinv). exact (reach_valid f Hinv eb Hin l Hr). }
+  assert (HX0 : XI f eb dm [] [block_first_loc eb]).
+  { refine (conj (Rch_init _ _ _ _ _) (conj (Fed_init _ _ _ _ _) (conj (Inv_init _ _ _ _ _ _ _ _ _) (conj _ (conj _ (conj _ (conj _ _))))))).
+    - intros l s Hl. discriminate Hl.
+    - intros l Hl. exfalso. apply Hl. reflexivity.
+    - intros l s Hl. discriminate Hl.
+    - intros l s Hl. discriminate Hl.
+    - constructor. }
+  destruct (fp_terminates_rel floc cmap floc_eqb floc_eqb_reflect (backward f) (forward f) (c_trans f) c_join cm_cmp
+              (il_succ f) (il_pred f) (block_first_loc eb)
+              (il_from_ok f Hinv eb Hin) (il_to_ok f Hinv eb Hin) (il_converse f Hinv eb Hin) (good f))
+    with (rank := crank (all_scalars f)) (h := (3 * length (all_scalars f))%nat) (U := locations f) (d := out_degree f)
+    as (n & o & Hn & Ht).
+  - intros l st a Hr _ Hst Hta. apply (good_trans f Hsr l st a (Hlocs l Hr) Hst Hta).
+  - intros a b j Ha Hb0 [= <-]. apply good_join; assumption.
+  - intros s _. apply crank_le.
+  - intros a b (A1 & A2 & _) (B1 & _ & _) Hc. apply crank_gt; assumption.
+  - apply (locations_nodup f Hinv).
+  - exact Hlocs.
+  - intros l Hr. unfold out_degree. apply list_max_in. apply in_map_iff. exists l. split; [reflexivity|exact (Hlocs l Hr)].
+  - destruct (term_done_only f Hinv Hsr Hda e eb Ee Eb dm Hsol n o _ _ Ht HX0) as (m & ->).
+    destruct (fp_budget floc cmap floc_eqb (backward f) (forward f) (c_trans f) c_join cm_cmp false max [] [block_first_loc eb]) as (Ha & _ & _).
+    assert (Hm : constants_states max f = Ok m).
+    { unfold constants_states, fp_forward. rewrite Ee. unfold f_block, cfg_block. fold (f_blocks f). rewrite Eb. cbn [bind].
+      rewrite (Ha n (Done m) Ht ltac:(lia)). reflexivity. }
+    unfold constants_max. rewrite Hm. cbn [bind]. exact (constants_remap_total f max m Hinv Hsr Hm).
+Qed.
